@@ -63,10 +63,12 @@ def one_trace(tid, n, L, plus, rng, iters, root: Path, integer_terminals: bool, 
             keep = [rng.random() < 0.7 for _ in leaves]     # some leaves get no terminal value (they count as 0)
         else:
             keep = [True] * len(leaves)
-        used = [[Coalition(viable[i]) for i in s] for s, k in zip(leaves, keep) if k]
-        tv = np.array([v for v, k in zip(vals, keep) if k], dtype=np.float32)
-        ev["leaf_ids"] = [sum(2 ** i for i in s) for s, k in zip(leaves, keep) if k]
-        ev["leaf_vals"] = [int(v) if integer_terminals else 0 for v, k in zip(vals, keep) if k]
+        order = [j for j, k in enumerate(keep) if k]
+        rng.shuffle(order)                                   # terminal nodes are listed in a different order in every iteration
+        used = [[Coalition(viable[i]) for i in rng.sample(leaves[j], len(leaves[j]))] for j in order]
+        tv = np.array([vals[j] for j in order], dtype=np.float32)
+        ev["leaf_ids"] = [sum(2 ** i for i in leaves[j]) for j in order]
+        ev["leaf_vals"] = [int(vals[j]) if integer_terminals else 0 for j in order]
         sample = [rm_nodes[0]] + (rm_nodes[1:] if len(rm_nodes) <= max_nodes else rng.sample(rm_nodes[1:], max_nodes - 1)) if rm_nodes else []
         pre_cur = {}
         try:
